@@ -17,7 +17,10 @@ props.META["C09"] = dict(
           "violations TLC must find). On the real shard N searchers run against a writer stream; every search is logged with the window "
           "of committed versions it may have seen and TLC checks that each returned point was live with exactly that document in one of "
           "them; afterwards the sequential model must hold warm and cold. Crashes and search errors are violations."),
-    note="schedules are sampled by repetition and cold-start bursts, not enumerated; trusted: bbolt MVCC; known finding C09-a matched by crash-stack signature")
+    note=("free-running schedules are sampled by repetition and cold-start bursts; forced schedules (behaviours of ShardCache.tla from TLC "
+          "simulation plus hand-written ones) are replayed through gates of the storage proxy, the cache manager (H2) and the graph search "
+          "(H6, H6b): a search that begins when no batch is open is judged exactly, also against a single search on a cold copy; trusted: bbolt "
+          "MVCC; known findings C09-a (crash-stack signature), C09-b, C09-c (trace signatures)"))
 
 props.META["C08"] = dict(
     technique="TLA+ reference model as single oracle for warm / evicted / cold / memory-backend answers (ShardTrace.tla), ShardCache.tla design check",
